@@ -1034,3 +1034,45 @@ pub fn counted_remove_ok(blocks: &mut [CountedBlock], v: u32) -> bool {
     }
     removed
 }
+
+// ---------------------------------------------------------------------------------------------------------------
+// E-digest witnesses: a stored digest over the struct's own fields is computed last
+// ---------------------------------------------------------------------------------------------------------------
+pub mod jenkins {
+    pub fn hashlittle(data: &[u8], init: u32) -> u32 {
+        data.iter().fold(init, |a, b| a.rotate_left(5) ^ u32::from(*b))
+    }
+}
+
+pub struct SealedFooter {
+    pub width: u8,
+    pub count: u32,
+    pub seal: u32,
+}
+
+impl SealedFooter {
+    pub fn seal_value(&self) -> u32 {
+        let mut d = vec![self.width];
+        d.extend_from_slice(&self.count.to_le_bytes());
+        jenkins::hashlittle(&d, 0)
+    }
+
+    pub fn sealed_new(count: u32) -> Self {
+        let mut f = Self { width: 4, count, seal: 0 };
+        f.seal = f.seal_value();
+        f
+    }
+}
+
+pub fn sealed_reconfigure_ok(count: u32, width: u8) -> SealedFooter {
+    let mut f = SealedFooter::sealed_new(count);
+    f.width = width;
+    f.seal = f.seal_value();
+    f
+}
+
+pub fn sealed_reconfigure_bad(count: u32, width: u8) -> SealedFooter {
+    let mut f = SealedFooter::sealed_new(count);
+    f.width = width;
+    f
+}
